@@ -46,6 +46,9 @@ pub struct MenuCfg {
     pub realloc_delta: Vec<i8>,
     /// if non-empty: keep only the actions with these operation names (narrow menus for deep chains)
     pub only_ops: Vec<String>,
+    /// operand-list patterns (register indices) of add_many / mul_many / dot_product_*; empty: no composites
+    pub list_patterns: Vec<Vec<u8>>,
+    pub composite_sizes: Vec<Dst>,
 }
 
 #[derive(Clone, Debug, Serialize, Deserialize, PartialEq, Eq)]
@@ -148,6 +151,8 @@ pub fn menu_cfg(p: &Params, level: u8) -> MenuCfg {
             badbase: 1,
             realloc_delta: vec![-1, 1],
             only_ops: vec![],
+            list_patterns: vec![vec![0], vec![0, 1], vec![1, 2], vec![0, 0], vec![0, 1, 2], vec![0, 0, 1]],
+            composite_sizes: vec![Dst::Keep, Dst::Limbs((big / 3).max(1))],
         },
         // narrow menu for long chains (budget exhaustion): multiplicative operations, the maintenance calls they
         // need, and a few linear ones
@@ -158,6 +163,7 @@ pub fn menu_cfg(p: &Params, level: u8) -> MenuCfg {
             m.rots = vec![1];
             m.consts = vec![2];
             m.badbase = 0;
+            m.list_patterns = vec![];
             m.enc_starts = vec![];
             m.only_ops = [
                 "mul_ct_into", "mul_ct_assign", "square_assign", "square_into", "mul_add_ct_into", "mul_sub_ct_into",
@@ -186,6 +192,25 @@ pub fn menu_cfg(p: &Params, level: u8) -> MenuCfg {
             badbase: 2,
             realloc_delta: vec![-1, 1],
             only_ops: vec![],
+            list_patterns: vec![
+                vec![0],
+                vec![1],
+                vec![2],
+                vec![0, 0],
+                vec![0, 1],
+                vec![1, 0],
+                vec![1, 2],
+                vec![0, 2],
+                vec![0, 0, 0],
+                vec![0, 1, 2],
+                vec![0, 0, 1],
+                vec![2, 1, 0],
+                vec![0, 0, 0, 0],
+                vec![0, 1, 2, 0],
+                vec![0, 0, 1, 1],
+                vec![0, 1, 0, 1],
+            ],
+            composite_sizes: vec![Dst::Keep, Dst::Limbs((big / 3).max(1)), Dst::Limbs(big + 1)],
         },
     }
 }
@@ -364,6 +389,37 @@ pub fn menu<B: Cb, F: Real>(cx: &Ctx<B, F>, st: &State<F>, mc: &MenuCfg) -> Vec<
             }
         }
     }
+    // composite operations (operand lists over the registers; destination written through register `d`)
+    {
+        let pats: Vec<&Vec<u8>> = mc.list_patterns.iter().filter(|l| l.iter().all(|r| live.contains(r))).collect();
+        let sizes: Vec<Dst> = mc.composite_sizes.iter().copied().filter(ok_size).collect();
+        let d = (NREG - 1) as u8;
+        for &size in &sizes {
+            for p in &pats {
+                v.push(AddMany { dst: d, size, regs: List::of(p) });
+                v.push(MulMany { dst: d, size, regs: List::of(p) });
+                for q in pats.iter().filter(|q| q.len() == p.len()) {
+                    v.push(DotCt { dst: d, size, a: List::of(p), b: List::of(q) });
+                }
+                for &form in &mc.forms {
+                    for &prec in &mc.precs {
+                        let idx = if matches!(form, PtForm::VecZnx | PtForm::VecRnx) { mc.pt_vecs[0] } else { 0 };
+                        v.push(DotPt {
+                            dst: d,
+                            size,
+                            a: List::of(p),
+                            pt: PtSel {
+                                form,
+                                prec,
+                                idx,
+                                badbase: false,
+                            },
+                        });
+                    }
+                }
+            }
+        }
+    }
     // (re-)encryption
     for &d in &all {
         for &start in &mc.enc_starts {
@@ -536,15 +592,17 @@ where
             Action::CtInto { op: Arith::Mul | Arith::MulAdd | Arith::MulSub, a, b, .. } => Some(ldr(a) == ldr(b)),
             Action::CtAssign { op: Arith::Mul, dst, a } => Some(ldr(dst) == ldr(a)),
             Action::SquareInto { .. } | Action::SquareAssign { .. } => Some(true),
+            Action::MulMany { regs, .. } => Some(regs.regs().iter().all(|&i| ldr(i) == ldr(regs.regs()[0]))),
+            Action::DotCt { a, b, .. } => Some(a.regs().iter().chain(b.regs()).all(|&i| ldr(i) == ldr(a.regs()[0]))),
             _ => None,
         }
     };
     let lineage_uld = ld_equal == Some(false) || sources(act).iter().any(|&i| st.regs[i as usize].lineage_uld);
     let (pt_badbase, pt_form, pt_ld, cst_limbs_exceed_dst) = match act {
-        Action::PtInto { pt, .. } | Action::PtAssign { pt, .. } => {
+        Action::PtInto { pt, .. } | Action::PtAssign { pt, .. } | Action::DotPt { pt, .. } => {
             let ldp = cx.p.pt_precs[pt.prec as usize].0;
             let dst_size = match act {
-                Action::PtInto { dst, size, .. } => dst_limbs(st, *dst, *size),
+                Action::PtInto { dst, size, .. } | Action::DotPt { dst, size, .. } => dst_limbs(st, *dst, *size),
                 _ => st.regs[dsti as usize].ct.size(),
             };
             let is_cst = matches!(pt.form, PtForm::CstZnx | PtForm::CstRnx);
